@@ -108,6 +108,10 @@ func (g *docGen) element(depth int) {
 			au = Pick(r, UriPool)
 		}
 		al := Pick(r, AttrNames)
+		if g.cfg.Lang && r.Chance(1, 3) {
+			// an attribute called lang that is NOT xml:lang (no namespace, or another one), before it
+			al = "lang"
+		}
 		if seen[au+"|"+al] {
 			continue
 		}
